@@ -27,6 +27,7 @@ type stdVariant struct {
 	MustRR     [3]string
 	NoReceived [3]string
 	Timeout    int
+	SharedTCP  bool // listen entry 1 also gets the TCP backend .33:5080 of listen entry 0 (one backend behind two listen entries)
 	DynPool    bool // listen entry 0 also gets the TCP backends a host name resolves to (.40 and .41, port 5080), fed through the resolver's own entry point
 	Two        bool // a second entry under proxies: (svc-b.test, listener .4:5066/5067, backend .37:5080) whose host table differs from the first one's and from the global one
 }
@@ -137,6 +138,9 @@ func newStdSvc(v stdVariant) (*stdSvc, error) {
 			bs = append(bs, "tcp://"+ip(33)+":5080")
 		}
 		cfg.Listens[0].Backends = bs
+	}
+	if v.SharedTCP {
+		cfg.Listens[1].Backends = append(cfg.Listens[1].Backends, "tcp://"+ip(33)+":5080")
 	}
 	if v.DynPool {
 		// the global dynamic resolver without its polling goroutine (DNS is dead in
